@@ -2,6 +2,7 @@
 //! usage: avharness <scenario> --out <dir> [--seed N] [--tier quick|thorough] [--side side.json] [--replay file]
 mod c18;
 mod c19;
+mod c20;
 mod evalreq;
 mod rx;
 mod specwalk;
@@ -33,6 +34,7 @@ fn main() {
     match scenario.as_str() {
         "c18" => c18::run(&out, seed, thorough, &side),
         "c19" => c19::run(&out, seed, thorough, &side),
+        "c20" => c20::run(&out, seed, thorough, &side),
         "eval" => evalreq::run(&out, replay.as_deref().expect("--replay <request file>"), &side),
         _ => {
             eprintln!("unknown scenario {scenario}");
